@@ -160,6 +160,9 @@ fn unit_pair(ctx: &mut Ctx, from: U, to: U, v: i64) {
                     }
                 }
                 ctx.distinct(&format!("{from:?}|{to:?}|{}|{}", v.signum(), (v.unsigned_abs() as f64).log10().floor()));
+                if v < 0 && from.per_sec() > to.per_sec() {
+                    ctx.sample(|| format!("{} = {g} (i128 floor {exact}, chrono agrees)", d()));
+                }
             },
         }
     }
